@@ -26,24 +26,39 @@ impl<'arena> Punning<'arena> {
     pub(super) fn term_payload(
         &self, field: &FieldName, inner: TermId,
     ) -> Option<PunnedTermPayload> {
+        self.term_payload_through(field, inner, |term| term)
+    }
+
+    /// The same, looking at the payload and at an annotated variable through the groups that
+    /// `through` removes: the printer passes its own elision of singleton groups, so that a
+    /// pun is recognised in the run that drops the parentheses around it.
+    pub(super) fn term_payload_through(
+        &self, field: &FieldName, inner: TermId, through: impl Fn(TermId) -> TermId,
+    ) -> Option<PunnedTermPayload> {
+        let inner = through(inner);
         if !self.is_trivia_free(inner) {
             return None;
         }
         match &self.arena.terms[&inner] {
             | Term::Var(VarName(name)) if name == &field.0 => Some(PunnedTermPayload::Variable),
-            | Term::Ann(Ann { tm, ty }) => match &self.arena.terms[tm] {
-                | Term::Var(VarName(name)) if name == &field.0 && self.is_trivia_free(*tm) => {
-                    Some(PunnedTermPayload::Annotated { variable: *tm, classifier: *ty })
+            | Term::Ann(Ann { tm, ty }) => {
+                let tm = through(*tm);
+                match &self.arena.terms[&tm] {
+                    | Term::Var(VarName(name)) if name == &field.0 && self.is_trivia_free(tm) => {
+                        Some(PunnedTermPayload::Annotated { variable: tm, classifier: *ty })
+                    }
+                    | _ => None,
                 }
-                | _ => None,
-            },
+            }
             | _ => None,
         }
     }
 
-    pub(super) fn pattern_payload(
-        &self, field: &FieldName, inner: PatId,
+    /// The pattern counterpart of [`Self::term_payload_through`].
+    pub(super) fn pattern_payload_through(
+        &self, field: &FieldName, inner: PatId, through: impl Fn(PatId) -> PatId,
     ) -> Option<PunnedPatternPayload> {
+        let inner = through(inner);
         if !self.is_trivia_free(inner) {
             return None;
         }
@@ -51,14 +66,17 @@ impl<'arena> Punning<'arena> {
             | Pattern::Var(definition) if self.arena.defs[definition].0 == field.0 => {
                 Some(PunnedPatternPayload::Variable)
             }
-            | Pattern::Ann(Ann { tm, ty }) => match &self.arena.pats[tm] {
-                | Pattern::Var(definition)
-                    if self.arena.defs[definition].0 == field.0 && self.is_trivia_free(*tm) =>
-                {
-                    Some(PunnedPatternPayload::Annotated { variable: *tm, classifier: *ty })
+            | Pattern::Ann(Ann { tm, ty }) => {
+                let tm = through(*tm);
+                match &self.arena.pats[&tm] {
+                    | Pattern::Var(definition)
+                        if self.arena.defs[definition].0 == field.0 && self.is_trivia_free(tm) =>
+                    {
+                        Some(PunnedPatternPayload::Annotated { variable: tm, classifier: *ty })
+                    }
+                    | _ => None,
                 }
-                | _ => None,
-            },
+            }
             | _ => None,
         }
     }
